@@ -36,6 +36,82 @@ def all_contracts():
     return out
 
 
+
+# ---------------------------------------------------------------------------------------------
+# discharging the obligations of one function: forked workers (z3 terms are not picklable, the children inherit
+# them), results come back as plain records.  A budget of unknown results per function (quick tier) keeps the
+# proof stage of a *changed* tree from spending minutes on obligations that no longer fit: the remaining ones are
+# reported unknown ("budget"), i.e. undecided, and the bounded stage decides.
+# ---------------------------------------------------------------------------------------------
+_TODO = []
+_CTX = {}
+WORKERS = int(os.environ.get("PYVC_WORKERS", "6"))
+UNKNOWN_BUDGET = int(os.environ.get("PYVC_UNKNOWN_BUDGET", "10"))
+
+
+def _record(i):
+    ob = _TODO[i]
+    c, timeout = _CTX["contract"], _CTX["timeout"]
+    r = discharge(ob, timeout_ms=timeout)
+    rec = {"name": ob.name, "kind": ob.kind, "function": c.target, "variant": ob.meta.get("variant"),
+           "result": r, "backend": ob.backend, "seconds": round(ob.seconds, 4),
+           "havocked": bool(ob.meta.get("havocked"))}
+    if r == "refuted":
+        rec["model"] = dict(list((ob.model or {}).items())[:60])
+        rec["trace"] = [f"{a}={b}" for a, b in ob.meta.get("trace", [])][-25:]
+        # project the counter-model onto the function's inputs (replayed on the real code by ./check)
+        try:
+            zm = getattr(ob, "z3model", None)
+            if zm is not None and hasattr(c, "to_case") and ob.meta.get("inputs"):
+                from .verify import concretize
+                vals = concretize(zm, ob.meta["inputs"])
+                if vals is not None:
+                    case = c.to_case(vals, ob.meta.get("variant"))
+                    if case is not None:
+                        rec["model_case"] = json.loads(json.dumps(case, default=str))
+        except Exception as e:       # a model that cannot be projected is not an error of the check
+            rec["model_case_error"] = f"{type(e).__name__}: {e}"
+    if r == "unknown":
+        rec["reason"] = getattr(ob, "reason", "")
+    return i, rec
+
+
+def discharge_all(todo, contract, timeout, tier):
+    global _TODO
+    _TODO = todo
+    _CTX.update(contract=contract, timeout=timeout)
+    n = len(todo)
+    out = [None] * n
+    budget = UNKNOWN_BUDGET if tier == "quick" else 10 ** 9
+    if n <= 2 or WORKERS <= 1:
+        unknown = 0
+        for i in range(n):
+            if unknown >= budget:
+                break
+            out[i] = _record(i)[1]
+            unknown += out[i]["result"] == "unknown" and out[i]["kind"] != "mustfail"
+    else:
+        import multiprocessing as mp
+        pool = mp.get_context("fork").Pool(min(WORKERS, n))
+        unknown = 0
+        try:
+            for i, rec in pool.imap_unordered(_record, range(n)):
+                out[i] = rec
+                unknown += rec["result"] == "unknown" and rec["kind"] != "mustfail"
+                if unknown >= budget:
+                    break
+        finally:
+            pool.terminate()
+            pool.join()
+    for i in range(n):
+        if out[i] is None:
+            ob = todo[i]
+            out[i] = {"name": ob.name, "kind": ob.kind, "function": contract.target, "variant": ob.meta.get("variant"),
+                      "result": "unknown", "backend": "none", "seconds": 0.0, "havocked": bool(ob.meta.get("havocked")),
+                      "reason": f"not attempted: {budget} obligations of this function were already undecided (quick-tier budget)"}
+    return out
+
+
 def prove_property(pid, tier="quick", log=print):
     t00 = time.time()
     loader = Loader()
@@ -45,7 +121,10 @@ def prove_property(pid, tier="quick", log=print):
     mods = [importlib.import_module(m) for m in contract_modules(pid)]
     by_target = {}
     for mod in mods:
-        for c in getattr(mod, "CONTRACTS", []) + getattr(mod, "CALLEE_CONTRACTS", []):
+        for c in getattr(mod, "CONTRACTS", []):
+            by_target[c.target] = c
+    for mod in mods:        # a call-site summary (CALLEE_CONTRACTS) takes precedence over inlining the body of a verified function
+        for c in getattr(mod, "CALLEE_CONTRACTS", []):
             by_target[c.target] = c
     for mod in mods:
         for c in getattr(mod, "CONTRACTS", []):
@@ -81,35 +160,16 @@ def prove_property(pid, tier="quick", log=print):
             f["paths_cover_checked"] = n_cover
             names_seen = set()
             seen_vc = set()
+            todo = []
             for ob in rep.obligations:
                 # the same verification condition is regenerated on every path that shares the prefix: discharge once
                 key = (ob.name, ob.meta.get("variant"), hash(ob.goal.sexpr()), hash(tuple(h.sexpr() for h in ob.hyps)))
                 if key in seen_vc:
                     continue
                 seen_vc.add(key)
-                r = discharge(ob, timeout_ms=timeout)
+                todo.append(ob)
                 names_seen.add(ob.name)
-                rec = {"name": ob.name, "kind": ob.kind, "function": c.target, "variant": ob.meta.get("variant"),
-                       "result": r, "backend": ob.backend, "seconds": round(ob.seconds, 4),
-                       "havocked": bool(ob.meta.get("havocked"))}
-                if r == "refuted":
-                    rec["model"] = dict(list((ob.model or {}).items())[:60])
-                    rec["trace"] = [f"{a}={b}" for a, b in ob.meta.get("trace", [])][-25:]
-                    # project the counter-model onto the function's inputs (replayed on the real code by ./check)
-                    try:
-                        zm = getattr(ob, "z3model", None)
-                        if zm is not None and hasattr(c, "to_case") and ob.meta.get("inputs"):
-                            from .verify import concretize
-                            vals = concretize(zm, ob.meta["inputs"])
-                            if vals is not None:
-                                case = c.to_case(vals, ob.meta.get("variant"))
-                                if case is not None:
-                                    rec["model_case"] = case
-                    except Exception as e:       # a model that cannot be projected is not an error of the check
-                        rec["model_case_error"] = f"{type(e).__name__}: {e}"
-                if r == "unknown":
-                    rec["reason"] = getattr(ob, "reason", "")
-                report["obligations"].append(rec)
+            report["obligations"].extend(discharge_all(todo, c, timeout, tier))
             for exp in getattr(c, "expected", ()):
                 if not any(n.startswith(exp) for n in names_seen):
                     report["undecided"].append({"function": c.target, "kind": "expected-obligation-missing", "detail": exp})
